@@ -4,11 +4,12 @@ import D2V.Gen.AsciiCharset
 open Lean D2V.Drv D2V.Canvas
 
 /-! Driver of C32: the property's own predicate on the real renderer's output —
-    (1) both renders return (no panic, no error);
+    (1) every render returns (no panic, no error);
     (2) standard character set: every character ≥ 128 of the output occurs in one of the diagram's own texts;
     (3) every non-empty single-line label of a plain shape occurs in the output (both character sets).
-    The regenerated glyph table is also cross-checked: in the standard set no glyph outside it and the labels appears
-    on a board without texts. -/
+    The three clauses are evaluated on the renders of fresh artists and on the renders of ONE artist reused across
+    the two character sets (in both orders).  The regenerated glyph table is also cross-checked: in the standard set
+    no 7-bit character outside the table, the literals of the drawing code and the diagram's texts appears. -/
 
 def plainShapes : List String :=
   ["rectangle", "square", "page", "parallelogram", "document", "cylinder", "queue", "package", "step", "callout",
@@ -19,58 +20,95 @@ def decodeOut (j : Json) : Except String (String × Option String) := do
   let bytes ← getBytes j "hex"
   pure (outcome, String.fromUTF8? ⟨bytes.toArray⟩)
 
+/-- the render of a reused artist: `none` when it is byte-identical to the fresh artist's -/
+def decodeReused (o : Json) (k : String) : Except String (Option (String × Option String)) :=
+  match o.getObjVal? k with
+  | .error _ => pure none
+  | .ok j => do
+    if (← getBool j "same") then pure none else
+    let r ← decodeOut j
+    pure (some r)
+
 def hex4 (n : Nat) : String :=
   let ds := (Nat.toDigits 16 n).map Char.toUpper
   String.ofList (List.replicate (4 - ds.length) '0' ++ ds)
 
-def handleBoard (i o : Json) : Except String Verdict := do
-  let board ← getStr i "board"
-  let engine ← getStr i "engine"
-  let profile := match i.getObjValAs? String "profile" with | .ok p => p | .error _ => "general"
-  let (ao, atxt) ← decodeOut (← getObj o "ascii")
-  let (uo, utxt) ← decodeOut (← getObj o "unicode")
-  let texts ← (← getArr o "texts").toList.mapM fun x => x.getStr?
-  let shapes ← (← getArr o "shapes").toList.mapM fun s => do
-    pure (← getStr s "id", ← getStr s "type", ← getStr s "label", ← getStr s "pos", ← getBool s "container")
-  let nconn ← getNat o "nconn"
-  let ctx := s!"board={board} engine={engine}"
+structure ShapeInfo where
+  id : String
+  type : String
+  label : String
+  pos : String
+  container : Bool
+
+/-- clauses (1)–(3) on one pair of renders; `how` is "" for fresh artists and ":reused-artist" for the reused one -/
+def checkRenders (ctx profile how : String) (nconn : Nat) (texts : List String) (shapes : List ShapeInfo)
+    (ar ur : String × Option String) : Option Verdict := Id.run do
+  let (ao, atxt) := ar
+  let (uo, utxt) := ur
   -- (1) total
-  if ao != "ok" then return .specfalse "render-failed:standard" s!"{ctx}: {ao}"
-  if uo != "ok" then return .specfalse "render-failed:extended" s!"{ctx}: {uo}"
-  let some a := atxt | return .specfalse "invalid-utf8:standard" s!"{ctx}: output is not valid UTF-8"
-  let some u := utxt | return .specfalse "invalid-utf8:extended" s!"{ctx}: output is not valid UTF-8"
+  if ao != "ok" then return some (.specfalse s!"render-failed:standard{how}" s!"{ctx}: {ao}")
+  if uo != "ok" then return some (.specfalse s!"render-failed:extended{how}" s!"{ctx}: {uo}")
+  let some a := atxt | return some (.specfalse s!"invalid-utf8:standard{how}" s!"{ctx}: output is not valid UTF-8")
+  let some u := utxt | return some (.specfalse s!"invalid-utf8:extended{how}" s!"{ctx}: output is not valid UTF-8")
   -- (2) 7-bit outside labels
   let textChars : List Char := texts.flatMap String.toList
   for ch in a.toList do
     if ch.toNat ≥ 128 && !textChars.contains ch then
-      let docs := shapes.filter fun s => s.2.1 == "document"
-      return .specfalse s!"non-ascii-glyph:U+{hex4 ch.toNat}" s!"{ctx}: standard character set output contains '{ch}' (U+{hex4 ch.toNat}) which is in none of the diagram's texts; document shapes on the board: {docs.length}"
+      let docs := shapes.filter fun s => s.type == "document"
+      return some (.specfalse s!"non-ascii-glyph:U+{hex4 ch.toNat}{how}" s!"{ctx}: standard character set output{how} contains '{ch}' (U+{hex4 ch.toNat}) which is in none of the diagram's texts; document shapes on the board: {docs.length}")
   -- glyph table cross-check (model vs implementation): non-text characters of the standard output are table glyphs,
   -- the literals of the drawing code, or a space / newline
   let tableChars : List Char := (D2V.Gen.AsciiCharset.asciiGlyphs.flatMap fun g => g.2.toList) ++
     (D2V.Gen.AsciiCharset.canvasLiterals.flatMap fun l => l.2.2.toList) ++ [' ', '\n']
   for ch in a.toList do
     if ch.toNat < 128 && !textChars.contains ch && !tableChars.contains ch then
-      return .mismatch s!"glyph-not-in-table:U+{hex4 ch.toNat}" s!"{ctx}: '{ch}' is neither in a text of the diagram nor in the regenerated ASCII table / literals"
+      return some (.mismatch s!"glyph-not-in-table:U+{hex4 ch.toNat}{how}" s!"{ctx}: '{ch}' is neither in a text of the diagram nor in the regenerated ASCII table / literals")
   -- (3) labels visible
   -- the signature names the circumstances (character class of the label, leaf / container, label position group,
-  -- whether the board has connections), so that each known defect of the renderer is matched on its own and a label
-  -- lost in other circumstances is still reported
-  for (id, ty, label, pos, container) in shapes do
-    if plainShapes.contains ty && label != "" && !label.contains '\n' then
-      let multibyte := label.toList.any fun c => c.toNat ≥ 128
+  -- whether the board has connections, generator profile), so that each known defect of the renderer is matched on
+  -- its own and a label lost in other circumstances is still reported
+  for s in shapes do
+    if plainShapes.contains s.type && s.label != "" && !s.label.contains '\n' then
+      let multibyte := s.label.toList.any fun c => c.toNat ≥ 128
       let kind := if multibyte then "multibyte" else "ascii"
-      let who := if container then "container" else "leaf"
+      let who := if s.container then "container" else "leaf"
       let grp :=
-        if pos.startsWith "OUTSIDE_LEFT" || pos.startsWith "OUTSIDE_RIGHT" then "outside-side"
-        else if pos.startsWith "BORDER_" then "border"
-        else if (!container && pos == "INSIDE_MIDDLE_CENTER") || (container && (pos == "OUTSIDE_TOP_CENTER" || pos == "INSIDE_TOP_CENTER")) then "default"
+        if s.pos.startsWith "OUTSIDE_LEFT" || s.pos.startsWith "OUTSIDE_RIGHT" then "outside-side"
+        else if s.pos.startsWith "BORDER_" then "border"
+        else if (!s.container && s.pos == "INSIDE_MIDDLE_CENTER") || (s.container && (s.pos == "OUTSIDE_TOP_CENTER" || s.pos == "INSIDE_TOP_CENTER")) then "default"
         else "other"
       let conn := (if nconn == 0 then "noconn" else "conn") ++ ":" ++ profile
-      if !isInfix label.toList a.toList then
-        return .specfalse s!"label-missing:standard:{kind}:{who}:{grp}:{conn}" s!"{ctx}: label \"{label}\" ({pos}) of {ty} {id} does not occur in the standard output"
-      if !isInfix label.toList u.toList then
-        return .specfalse s!"label-missing:extended:{kind}:{who}:{grp}:{conn}" s!"{ctx}: label \"{label}\" ({pos}) of {ty} {id} does not occur in the extended output"
+      if !isInfix s.label.toList a.toList then
+        return some (.specfalse s!"label-missing:standard:{kind}:{who}:{grp}:{conn}{how}" s!"{ctx}: label \"{s.label}\" ({s.pos}) of {s.type} {s.id} does not occur in the standard output{how}")
+      if !isInfix s.label.toList u.toList then
+        return some (.specfalse s!"label-missing:extended:{kind}:{who}:{grp}:{conn}{how}" s!"{ctx}: label \"{s.label}\" ({s.pos}) of {s.type} {s.id} does not occur in the extended output{how}")
+  return none
+
+def handleBoard (i o : Json) : Except String Verdict := do
+  let board ← getStr i "board"
+  let engine ← getStr i "engine"
+  let profile := match i.getObjValAs? String "profile" with | .ok p => p | .error _ => "general"
+  let ar ← decodeOut (← getObj o "ascii")
+  let ur ← decodeOut (← getObj o "unicode")
+  let ar2 ← decodeReused o "asciiReused"
+  let ur2 ← decodeReused o "unicodeReused"
+  let texts ← (← getArr o "texts").toList.mapM fun x => x.getStr?
+  let shapes ← (← getArr o "shapes").toList.mapM fun s => do
+    pure ({ id := ← getStr s "id", type := ← getStr s "type", label := ← getStr s "label", pos := ← getStr s "pos",
+            container := ← getBool s "container" } : ShapeInfo)
+  let nconn ← getNat o "nconn"
+  let ctx := s!"board={board} engine={engine}"
+  match checkRenders ctx profile "" nconn texts shapes ar ur with
+  | some v => return v
+  | none => pure ()
+  -- one artist reused across the character sets (Unicode then ASCII for the standard render, ASCII then Unicode for
+  -- the extended one): the same clauses; a render identical to the fresh artist's needs no second look
+  if ar2.isSome || ur2.isSome then
+    match checkRenders ctx profile ":reused-artist" nconn texts shapes (ar2.getD ar) (ur2.getD ur) with
+    | some v => return v
+    | none =>
+      -- the clauses hold, but the artist's second render differs from a fresh artist's: state carried over
+      return .mismatch "reused-artist-differs" s!"{ctx}: a render by an artist that rendered the other character set before differs from a fresh artist's render (standard differs: {ar2.isSome}, extended differs: {ur2.isSome})"
   return .ok
 
 def handleC32 (j : Json) : Except String Verdict := do
